@@ -234,9 +234,18 @@ int URI_FUNC(ComposeQueryEngine)(URI_CHAR * dest,
 		valueRequiredChars = worstCase * (int)valueLen;
 
 		if (dest == NULL) {
-			(*charsRequired) += ampersandLen + keyRequiredChars + ((value == NULL)
-						? 0
-						: 1 + valueRequiredChars);
+			/* The per-item figures are bounded above but their sum is not;
+			 * refuse instead of wrapping around INT_MAX */
+			if ((*charsRequired) > INT_MAX - (ampersandLen + keyRequiredChars)) {
+				return URI_ERROR_OUTPUT_TOO_LARGE;
+			}
+			(*charsRequired) += ampersandLen + keyRequiredChars;
+			if (value != NULL) {
+				if ((*charsRequired) > INT_MAX - (1 + valueRequiredChars)) {
+					return URI_ERROR_OUTPUT_TOO_LARGE;
+				}
+				(*charsRequired) += 1 + valueRequiredChars;
+			}
 
 			if (firstItem == URI_TRUE) {
 				ampersandLen = 1;
